@@ -104,6 +104,10 @@ fn main() {
 				}
 			}
 		}
+		"lock-child" => {
+			let dir = args.get(2).unwrap_or_else(|| usage());
+			std::process::exit(checks::lock::lock_child(dir));
+		}
 		"replayn" => {
 			// judge a replay file several times in one process (determinism debugging)
 			let path = args.get(2).unwrap_or_else(|| usage());
